@@ -238,11 +238,11 @@ theorem multiDigitDe_safe (b k : Nat) : SafeDe (multiDigitDe b k) := by
     · exact .none' s i
     · exact .ok' _ (by omega)
 
-theorem mdUnpack_length (b : Nat) : ∀ (k v : Nat) (acc : List PyVal), (mdUnpack b k v acc).length = k + acc.length
+theorem mdUnpack_length_t (b : Nat) : ∀ (k v : Nat) (acc : List PyVal), (mdUnpack b k v acc).length = k + acc.length
   | 0, _, acc => by simp [mdUnpack]
   | k + 1, v, acc => by
     unfold mdUnpack
-    rw [mdUnpack_length b k]
+    rw [mdUnpack_length_t b k]
     simp; omega
 
 theorem multiDigitDe_progress (b k : Nat) (hk : 1 ≤ k) : Progress (multiDigitDe b k) := by
@@ -257,7 +257,7 @@ theorem multiDigitDe_progress (b k : Nat) (hk : 1 ≤ k) : Progress (multiDigitD
     · cases h
       intro hnil
       have := congrArg List.length hnil
-      rw [mdUnpack_length] at this
+      rw [mdUnpack_length_t] at this
       simp at this
       omega
 
